@@ -221,6 +221,9 @@ def spec_conv1d(mk: Any, cfg: Dict[str, Any]) -> Call:
         if b is not None:
             terms["b"] = batch
     terms["x"] = _sreal(og * k) / S  # average over one stride period of interior positions
+    if cfg.get("tuples"):  # F.conv1d's documented one-element tuple form (what torch.nn.Conv1d passes)
+        return Call(lambda c: U.conv1d(x, w, b, (S,), (P,), (D,), G, **_ckw(c)), lambda: TF.conv1d(x, w, b, (S,), (P,), (D,), G), diff, dict(diff),
+                    constrained=["x"], terms=terms)
     return Call(lambda c: U.conv1d(x, w, b, S, P, D, G, **_ckw(c)), lambda: TF.conv1d(x, w, b, S, P, D, G), diff, dict(diff),
                 constrained=["x"], terms=terms)
 
@@ -453,6 +456,7 @@ def configs(op: str, tier: str) -> List[Dict[str, Any]]:
                 for c in (cons if (r == 1 and bias) or th else [None, "gmean"]):
                     add(rank=r, bias=bias, constraint=c, dtype=dts[r % len(dts)], padding=True)
         add(rank=1, bias=True, constraint=None, dtype="float32", padding=False)
+        add(rank=1, bias=True, constraint="gmean", dtype="float32", padding=True, tuples=True)
         add(rank=0, bias=False, constraint=None, dtype="float32", padding=False, stride=False, dilation=False, groups=False)
     elif op in ("layer_norm", "rms_norm"):
         for r in ([0, 1, 2] if th else [1, 2]):
